@@ -781,3 +781,109 @@ def control_flow(facts):
                                 % (b.name, head[4:] if head.startswith("adt:") else head, nm, got, want)))
     r.floor = 8
     return r
+
+
+def graphmap_iters(facts):
+    r = RuleResult("TABLE-GRAPHMAP", "GraphMap's adjacency filters: for a directed map neighbors() keeps exactly the Outgoing entries; neighbors_directed(dir) "
+                                     "keeps an entry iff its direction equals the queried one or it is the start node itself (a self-loop is stored once, as "
+                                     "Outgoing, and must be visible in both directions); edges_directed swaps (a, b) exactly for Incoming")
+
+    def find(prefix):
+        return [b for b in facts.bodies if b.kind == "Closure" and b.path.startswith(prefix)]
+
+    def cdir(i):
+        return ("enum", i, ["Outgoing", "Incoming"][i])
+
+    def oracle(w, f, args, t):
+        nm = last_seg(f["path"])
+        if nm in ("eq", "ne"):
+            x, y = deref(args[0]), deref(args[1])
+
+            def norm(z):
+                return z[2] if isinstance(z, tuple) and z[0] == "enum" else z
+            res = norm(x) == norm(y)
+            return res if nm == "eq" else not res
+        if nm == "swap":
+            w.trace.append("swap")
+            return ("opaque", "unit")
+        raise Unknown("call %s" % f["path"])
+    # 1. Neighbors::next closure (directed): keep iff entry dir == Outgoing
+    cs = find("<graphmap::Neighbors<'_, N, Ty> as core::iter::Iterator>::next::{closure#0}")
+    if not cs:
+        r.bad(Violation("TABLE-GRAPHMAP", "graphmap::Neighbors::next", "anchor-missing", "src/graphmap.rs", 0, "Neighbors::next filter closure not found - fail closed"))
+    for b in cs:
+        for d in (0, 1):
+            entry = ("agg", "tuple", "", [("opaque", "n"), cdir(d)], None)
+            site = "neighbors:entry=%s" % cdir(d)[2]
+            try:
+                w = Walk(facts, b, oracle, {1: ("ref", ("agg", "closure", "", [], None)), 2: ("ref", entry)})
+                res = w.run()
+            except Unknown as e:
+                r.silent += 1
+                r.ok(b.npath, site, "unrecognised construct (%s): silent" % e)
+                continue
+            kept = isinstance(res, tuple) and res[0] == "agg" and res[2] == "Some"
+            if kept == (d == 0):
+                r.ok(b.npath, site, "kept=%s" % kept)
+            else:
+                r.bad(Violation("TABLE-GRAPHMAP", b.npath, site, b.file, b.line, "directed neighbors(): an %s entry is %s; only Outgoing entries are successors"
+                                % (cdir(d)[2], "kept" if kept else "dropped")))
+    # 2. NeighborsDirected::next closure
+    cs = find("<graphmap::NeighborsDirected<'_, N, Ty> as core::iter::Iterator>::next::{closure#0}")
+    if not cs:
+        r.bad(Violation("TABLE-GRAPHMAP", "graphmap::NeighborsDirected::next", "anchor-missing", "src/graphmap.rs", 0, "NeighborsDirected::next filter closure not found - fail closed"))
+    for b in cs:
+        # capture order from the parent's closure aggregate
+        parent = facts.body(b.root)
+        order = None
+        if parent:
+            for _, _, st in parent.stmts():
+                rv = st["rv"]
+                if rv["k"] == "agg" and rv["ak"] == "closure" and rv["name"] == b.path:
+                    order = [parent.lname(op_local(o)) if op_local(o) is not None else "?" for o in rv["o"]]
+        if not order or set(order) != {"self_dir", "start_node"}:
+            r.silent += 1
+            r.ok(b.npath, "neighbors_directed", "capture list %s not recognised: silent" % order)
+            continue
+        for q in (0, 1):
+            for d in (0, 1):
+                for same in (False, True):
+                    caps = {"self_dir": ("enum", q, ["Outgoing", "Incoming"][q]), "start_node": ("opaque", "start")}
+                    entry = ("agg", "tuple", "", [("opaque", "start" if same else "other"), cdir(d)], None)
+                    site = "neighbors_directed:query=%s,entry=%s,%s" % (caps["self_dir"][2], cdir(d)[2], "start-node" if same else "other-node")
+                    try:
+                        w = Walk(facts, b, oracle, {1: ("ref", ("agg", "closure", "", [caps[x] for x in order], None)), 2: ("ref", entry)})
+                        res = w.run()
+                    except Unknown as e:
+                        r.silent += 1
+                        r.ok(b.npath, site, "unrecognised construct (%s): silent" % e)
+                        continue
+                    kept = isinstance(res, tuple) and res[0] == "agg" and res[2] == "Some"
+                    want = (q == d) or same
+                    if kept == want:
+                        r.ok(b.npath, site, "kept=%s" % kept)
+                    else:
+                        r.bad(Violation("TABLE-GRAPHMAP", b.npath, site, b.file, b.line,
+                                        "directed neighbors_directed(%s): an %s entry for %s is %s, expected %s (a self-loop is stored once as Outgoing and "
+                                        "must be listed for Incoming too)" % (caps["self_dir"][2], cdir(d)[2], "the start node itself" if same else "another node",
+                                                                               "kept" if kept else "dropped", "kept" if want else "dropped")))
+    # 3. EdgesDirected::next closure: swap exactly for Incoming
+    cs = find("<graphmap::EdgesDirected<'a, N, E, Ty, S> as core::iter::Iterator>::next::{closure#0}")
+    for b in cs:
+        n_swaps = sum(1 for _, t in b.calls() if last_seg(t["f"]["path"]) == "swap")
+        ok = False
+        from .guard import dom_atoms
+        for i, t in b.calls():
+            if last_seg(t["f"]["path"]) == "swap":
+                for (e, truth, src) in dom_atoms(b, i):
+                    if isinstance(e, tuple) and e[0] == "bin" and e[1] == "Eq" and truth is True and any(isinstance(s, tuple) and s[0] == "enum" or (isinstance(s, tuple) and s[0] == "agg" and s[2] == "Incoming") for s in walk_expr(e)):
+                        ok = True
+                    if isinstance(e, tuple) and e[0] == "bin" and e[1] == "Eq" and truth is True and "Incoming" in str(e):
+                        ok = True
+        if n_swaps == 1 and ok:
+            r.ok(b.npath, "edges_directed:swap", "endpoints swapped exactly under dir == Incoming")
+        else:
+            r.silent += 1
+            r.ok(b.npath, "edges_directed:swap", "swap guard not recognised (%d swaps): silent" % n_swaps)
+    r.floor = 8
+    return r
